@@ -30,6 +30,7 @@ GRAPHS = {
     "self_loop": (["sysenv", "A"], [("sysenv", "A", "te"), ("A", "A", "te"), ("A", "sysenv", "te")], []),
     "two_stocks_one_process": (["sysenv", "A"], [("sysenv", "A", "te"), ("A", "sysenv", "te")], [("A", "te"), ("A", "t")]),
     "inner_ring_mixed_dims": (["sysenv", "A", "B", "C"], [("sysenv", "A", "te"), ("A", "B", "t"), ("B", "C", "te"), ("C", "A", "er"), ("C", "sysenv", "t")], []),
+    "scalar_flow_after_dimensional": (["sysenv", "A", "B"], [("sysenv", "A", "te"), ("A", "B", ""), ("B", "sysenv", "e"), ("B", "sysenv", "")], []),
     "stocks_on_two_processes": (["sysenv", "A", "B"], [("sysenv", "A", "te"), ("A", "B", "et"), ("B", "sysenv", "t")], [("A", "te"), ("B", "tr"), (None, "t")]),
 }
 
